@@ -5,7 +5,8 @@
    capacity model VecCap.v.  PARTIAL: the operations not modelled (map, into_flattened, into_* conversions) are checked on the
    implementation against std::vec::Vec in lock-step only. *)
 From Coq Require Import List Arith ZArith.
-From BS Require Import Word VecCap VecCapProofs Colls CollsProofs.
+From BS Require Import Word VecCap VecCapProofs LibRefine Colls CollsProofs.
+From BS.gen Require LibArith.
 Import ListNotations.
 Close Scope Z_scope.
 
@@ -148,6 +149,11 @@ Theorem C08_zst_vector_never_overflows :
   (forall n, (o = VExtend n \/ (o = VPush /\ n = 1)) -> (vo_err out = None <-> vlen s + n <= W - 1)).
 Proof. exact zst_vector_never_overflows. Qed.
 
+(* the smallest capacity a growing vector asks for is `min_non_zero_cap` of the CURRENT src/lib.rs *)
+Theorem C08_min_non_zero_cap_is_the_code :
+  forall sz, LibArith.min_non_zero_cap sz = Ok (min_non_zero_cap sz).
+Proof. exact min_non_zero_cap_refines. Qed.
+
 Print Assumptions C08_truncate_spec.
 Print Assumptions C08_remove_spec.
 Print Assumptions C08_remove_panics_iff.
@@ -171,3 +177,4 @@ Print Assumptions C08_fixed_never_reallocates.
 Print Assumptions C08_fixed_push_fails_iff_full.
 Print Assumptions C08_shrink_to_bounds.
 Print Assumptions C08_zst_vector_never_overflows.
+Print Assumptions C08_min_non_zero_cap_is_the_code.
